@@ -827,14 +827,14 @@ def body_corpus() -> list[tuple[str, list]]:
         ("deep", B((b"[", 200000))),
         ("deep", B((b'{"a":', 200000))),
         ("deep", B(b'{"detail":', (b"[", 200000))),
-        ("deep", B(b'{"reason":', (b'{"a":', 100000), b"1", (b"}", 100000), b"}")),
-        ("deep", B((b"[", 100000), (b"]", 100000))),
+        ("deep", B(b'{"reason":', (b'{"a":', 50000), b"1", (b"}", 50000), b"}")),
+        ("deep", B((b"[", 50000), (b"]", 50000))),
         ("deep", B((b"[", 9000), (b"]", 9000))),
         ("deep", B((b"[", 5000), b'"x"', (b"]", 5000))),
         ("deep", B(b'{"reason":"expired_credential","detail":', (b"[", 3000), (b"]", 3000), b"}")),
         ("deep", B(b'{"reason":"expired_credential","proxy_hint":', (b'{"k":', 2000), b"null", (b"}", 2000), b"}")),
-        ("deep", B((b" ", 100000), (b"[", 150000))),
-        ("deep", B((b"[{\"a\":", 70000))),
+        ("deep", B((b" ", 30000), (b"[", 60000))),
+        ("deep", B((b"[{\"a\":", 30000))),
         ("empty", B(b"")), ("empty", B(b"   ")), ("empty", B(b"\n\t\r ")), ("empty", B(b"\xc2\xa0\xe2\x80\x83")),
         ("html", B(b"<!DOCTYPE html>\n<html><body>", (b"x", 5000), b"</body></html>")),
         ("html", B(b"<html>")), ("html", B(b"<HTML lang=en>")), ("html", B(b"  \n<!doctype HTML>")), ("html", B(b"<!DocType")),
@@ -1208,8 +1208,8 @@ def run_compositions(ctx: Any, L: Any) -> None:
             flush_requests(ctx, app)
     # ---- random compositions ----------------------------------------------------------------------
     maxd = 7 if thorough else 4
-    n_trees = ctx.budget(160, 9000)
-    per = ctx.budget(10, 24)
+    n_trees = ctx.budget(140, 4500)
+    per = ctx.budget(10, 22)
     for ti in range(n_trees):
         d = 1 + (ti % maxd)
         tree = gen_tree(rng, d, True, [0], builtins=rng.random() < 0.4)
@@ -1224,7 +1224,7 @@ def run_bodies(ctx: Any) -> None:
     rng = ctx.rng
     for tag, segs in body_corpus():
         run_body(ctx, tag, segs)
-    for _ in range(ctx.budget(1500, 60000)):
+    for _ in range(ctx.budget(1200, 30000)):
         tag, segs = gen_body(rng)
         run_body(ctx, tag, segs)
     flush_bodies(ctx)
